@@ -33,13 +33,13 @@ def build(tier, seed):
     it.optional = {'find_if', 'fl_begin', 'fl_end', 'it_eq', 'it_deref', 'eq_call', 'fl_empty'}
     obs += [
         Ob('C03.word_if_known', it, 'C03/intern.c', 'h_word_if_known', 'reserved-word lookup for a symbolic word (length <= 24, arbitrary bytes): hit iff the spelling is in the table, and then that entry',
-           kind='K1', flags=['--unwind', '58'], replay='C03', timeout=1800),
+           kind='K1', flags=['--unwind', '72'], replay='C03', timeout=1800),
         Ob('C03.intern', it, 'C03/intern.c', 'h_intern', 'intern from an arbitrary bucket state (<= 2 earlier words, arbitrary contents): empty / reserved / already interned anywhere in the bucket / new word',
-           kind='K1', flags=['--unwind', '58'], replay='C03', timeout=1800, bounded=None),
+           kind='K1', flags=['--unwind', '72'], replay='C03', timeout=1800, bounded=None),
     ]
     obs[-1].heavy = obs[-2].heavy = True
     kw = Ob('C03.known_word', it, 'C03/intern.c', 'h_known_word', 'known_word(s), s a symbolic NUL-terminated spelling (<= 24 bytes): the table entry with that spelling, std::domain_error otherwise; word_if_known through its proved contract',
-            kind='K1', flags=['--unwind', '66'], defines=['WITH_KNOWN_WORD'], replay='C03', timeout=900)
+            kind='K1', flags=['--unwind', '72'], defines=['WITH_KNOWN_WORD'], replay='C03', timeout=900)
     kw.skip = ['@{word_if_known}']; obs.append(kw)
     meta = dict(sweep_family='C03', functions_under_contract=['allocate', 'make_string', 'arena_ctor', 'string_index'],
                 assumptions=['operator new returns a fresh object of the requested size (never null)',
